@@ -19,7 +19,8 @@ const (
 	hsServerHello        = 2
 	hsHelloVerifyRequest = 3
 
-	extCookie = 44 // RFC 8446 §4.2.2
+	extCookie   = 44 // RFC 8446 §4.2.2
+	extKeyShare = 51 // RFC 8446 §4.2.8
 )
 
 // hrrRandom is the RFC 8446 §4.1.3 HelloRetryRequest magic (SHA-256 of "HelloRetryRequest").
@@ -221,6 +222,24 @@ func withoutCookie(h *hello, v13 bool) []byte {
 	}
 	c.Exts = keep
 	return c.marshal()
+}
+
+// comparable is withoutCookie with, if freeKS, the key_share extension left out as well: the form in which a
+// second ClientHello is compared with the first when the HelloRetryRequest selected a group (the retried hello
+// replaces key_share, RFC 8446 4.1.2).
+func comparable(h *hello, v13, freeKS bool) []byte {
+	if !freeKS {
+		return withoutCookie(h, v13)
+	}
+	c := h.clone()
+	var keep []ext
+	for _, x := range c.Exts {
+		if x.Type != extKeyShare {
+			keep = append(keep, x)
+		}
+	}
+	c.Exts = keep
+	return withoutCookie(c, v13)
 }
 
 // ---------------------------------------------------------------------------------------------
